@@ -599,6 +599,9 @@ func runE2EInner(c *E2ECase, res *E2EResult) {
 							// the PUT / DELETE takes effect and is answered 500 (EPutLost / EDelLost of the model)
 							opts = append(opts, opt{p, true, "lost"})
 						}
+					} else if (cl == "man-put" || cl == "man-del") && faults < c.MaxFaults {
+						// the manifest PUT / DELETE takes effect and is answered 500 (LPutLost / LDel of the model)
+						opts = append(opts, opt{p, true, "lost"})
 					}
 				}
 				ch := 0
@@ -627,6 +630,9 @@ func runE2EInner(c *E2ECase, res *E2EResult) {
 				} else if c.FaultKinds && strings.HasPrefix(cl, "man-") && faults < c.MaxFaults && sched.Intn(100) < c.FaultPct/2 {
 					// the operation's own manifest exchange fails (fetch / PUT / final DELETE)
 					fail = true
+					if (cl == "man-put" || cl == "man-del") && sched.Chance(1, 3) {
+						fkind = "lost" // the PUT / DELETE of the manifest takes effect, the client gets 500
+					}
 				}
 			}
 			if fail {
@@ -961,7 +967,7 @@ func checkE2E(c *E2ECase, res *E2EResult) []failure {
 	for _, e := range res.Events {
 		if e.Fail {
 			failedAny[e.Round]++
-			if e.Kind == "lost" {
+			if e.Kind == "lost" && e.Class == "idx-put" {
 				nFailedDel++ // the PUT took effect, the update stopped before deleting the old index
 			}
 			if e.Class == "idx-del" {
